@@ -19,6 +19,7 @@ type Profile struct {
 	Bad                                                                   int // percent of adversarial variants (wrong client, tamper, ...)
 	ShortLives                                                            int // percent of histories with second-scale lifetimes
 	ParEnforce                                                            int // percent of histories with enforced PAR
+	NoRefreshScopes, NoRefreshGrant                                       int // percent: refresh scopes [] / clients without the refresh_token grant
 	MinOps, MaxOps                                                        int
 	PkceFlags                                                             bool // randomise enforcement flags
 	Smuggle                                                               int
@@ -77,7 +78,11 @@ func newGen(r *RNG, p *Profile) *gen {
 	c := &g.h.Cfg
 	c.Scope = Pick(r, []string{"wildcard", "wildcard", "exact", "hierarchic"})
 	c.AudExact = r.Chance(30)
-	switch r.Intn(4) {
+	rsel := r.Intn(4)
+	if r.Chance(p.NoRefreshScopes) {
+		rsel = 0
+	}
+	switch rsel {
 	case 0:
 		c.RefreshScopes = []string{}
 	case 1:
@@ -110,8 +115,8 @@ func newGen(r *RNG, p *Profile) *gen {
 	for i := 0; i < n; i++ {
 		cl := HClient{Public: r.Chance(30)}
 		cl.Grants = []string{"authorization_code", "refresh_token", "password", "client_credentials", "urn:ietf:params:oauth:grant-type:device_code"}
-		if r.Chance(10) {
-			cl.Grants = []string{"authorization_code", "urn:ietf:params:oauth:grant-type:device_code"}
+		if r.Chance(18 + p.NoRefreshGrant) {
+			cl.Grants = []string{"authorization_code", "password", "urn:ietf:params:oauth:grant-type:device_code"}
 		}
 		if r.Chance(15) {
 			cl.Grants = []string{"authorization_code", "refresh_token"}
@@ -196,6 +201,7 @@ func (g *gen) next() HOp {
 		if r.Chance(60) {
 			op.Redirect = clientRedirect(op.Client)
 		}
+		op.ForeignURI = r.Chance(15)
 		if r.Chance(35) {
 			op.Aud = g.subset(audPool, 40)
 		}
@@ -570,6 +576,14 @@ func genHistory(t *testing.T, r *RNG, p *Profile) (*HHistory, []HObs) {
 		n := p.MinOps + r.Intn(p.MaxOps-p.MinOps+1)
 		for k := 0; k < n; k++ {
 			op := g.next()
+			if op.Kind == "redeem" || op.Kind == "refresh" || op.Kind == "device_poll" {
+				// the token's owner named in the body while another client authenticates
+				if op.Tok.Ref >= 0 && op.Tok.Ref < len(g.toks) && op.Auth >= 0 && op.Auth != g.toks[op.Tok.Ref].client && r.Chance(60) {
+					op.ClaimedClient = g.toks[op.Tok.Ref].client + 1
+				} else if r.Chance(p.Bad / 2) {
+					op.ClaimedClient = r.Intn(len(g.h.Clients)) + 1
+				}
+			}
 			verifier := op.Verifier
 			if op.Kind == "authorize" || op.Kind == "push" || op.Kind == "authorize_par" {
 				op.Verifier = ""
